@@ -221,8 +221,11 @@ def run(ctx: Ctx) -> None:
         "heading and paragraph, whose models are tied to the real rules by whole-document differential runs under all 16 "
         "rule subsets (`miniblock`), giving the unconditional theorem mini_total for that sub-parser; for the container "
         "rule blockquote (Props/C01c.lean: quoteScan_ok, restore_lines, quote_shape, ruleOK_blockquote by induction on the "
-        "nesting budget), giving q_total for the sub-parser with block quotes nested to any depth (model tied by `qblock`); "
-        "and for the inline rules text/newline/escape. For all other rules (list, table, reference, html_block, lheading; "
+        "nesting budget), giving q_total for the sub-parser with block quotes nested to any depth (model tied by `qblock`); for "
+        "the container rule list (Props/C01d.lean: listNested_ok, listClose_ok, listItem_ok, listItems_ok, listRun_ok, ruleOK_list) "
+        "giving l_total for the sub-parser code/fence/blockquote/hr/list/heading/paragraph with quotes and lists nested in each "
+        "other to any depth (model tied by `lblock`); "
+        "and for the inline rules text/newline/escape. For all other rules (table, reference, html_block, lheading; "
         "the other inline rules) the contracts are monitored on every call on the implementation, not proved",
         "renderer totality follows from structural recursion on tokens in the renderer model (C04); CPython's real stack "
         "limit, memory and `re` engine time are not exhibited by the model: covered by the per-input time limit and the deep-"
